@@ -183,6 +183,19 @@ Theorem C03_after_initialize_live : forall p s r, running s = false -> Live (fst
 Proof. exact do_init_live. Qed.
 Print Assumptions C03_after_initialize_live.
 
+(* the guard at the end time: refuted for the pinned code ("refuse when clock >=
+   end": a pause exactly at the end time with events at that time still pending
+   could never be resumed or ended), holds for the repaired guard the model
+   describes (the resuming start runs the rest and ends with the uninterrupted
+   run's trace) *)
+Theorem C03_pause_at_end_refuted_for_pinned_guard :
+  ps end_s1 = PStarted /\ rs end_s1 = RStopped /\ clock end_s1 = end_time end_s1
+  /\ length (pend end_s1) = 1%nat /\ length (trace end_s1) = 3%nat /\ length (trace end_t1) = 4%nat
+  /\ start_checks_pinned end_s1 = false
+  /\ start_checks end_s1 = true /\ ps end_s2 = PEnded /\ trace end_s2 = trace end_t1 /\ clock end_s2 = clock end_t1.
+Proof. exact pause_at_end_refuted_for_pinned_guard. Qed.
+Print Assumptions C03_pause_at_end_refuted_for_pinned_guard.
+
 (* ---- non-vacuity: a program with a stop() in a handler, run in pieces
    (run_up_to 4, step, run_up_to_including 10, start (paused by the stop),
    start) and uninterrupted with the stop removed; both reach the end and the
